@@ -15,6 +15,7 @@ Variants
   k10  aarch64 without the neon target feature
 """
 import fcntl
+import json
 import os
 import re
 import shutil
@@ -91,16 +92,57 @@ def _rewrite(text, v, counts):
     return text
 
 
+def _stamp():
+    """Digest of everything a scratch copy is derived from."""
+    import hashlib
+    h = hashlib.sha256()
+    items = []
+    for dp, _, fs in os.walk("/repo/src"):
+        for f in fs:
+            if f.endswith(".rs"):
+                p = os.path.join(dp, f)
+                st = os.stat(p)
+                items.append((os.path.relpath(p, "/repo/src"), st.st_mtime_ns, st.st_size))
+    for p in (os.path.abspath(__file__), os.path.join(HARNESS, "emul", "verif_emul.rs"), os.path.join(HARNESS, "Cargo.lock")):
+        if os.path.exists(p):
+            st = os.stat(p)
+            items.append((p, st.st_mtime_ns, st.st_size))
+    h.update(repr(sorted(items)).encode())
+    return h.hexdigest()
+
+
+def _fresh(root):
+    try:
+        return open(os.path.join(root, ".stamp")).read().strip() == _stamp()
+    except OSError:
+        return False
+
+
+def _lock_for(variant):
+    """Takes a SHARED lock if the copy is already fresh (so that concurrent
+    checks do not wait for each other), else an exclusive one for re-creating
+    it. Returns (lockfile, fresh)."""
+    os.makedirs(SCRATCH_ROOT, exist_ok=True)
+    lock = open(os.path.join(SCRATCH_ROOT, variant + ".lock"), "w")
+    fcntl.flock(lock, fcntl.LOCK_SH)
+    if _fresh(os.path.join(SCRATCH_ROOT, variant)):
+        return lock, True
+    fcntl.flock(lock, fcntl.LOCK_UN)
+    fcntl.flock(lock, fcntl.LOCK_EX)
+    return lock, _fresh(os.path.join(SCRATCH_ROOT, variant))
+
+
 def prepare(variant):
     """Returns dict(dir=<workspace dir>, target_dir=..., env=..., expect=...)."""
     if variant == "kloom":
         return prepare_loom()
     v = VARIANTS[variant]
-    os.makedirs(SCRATCH_ROOT, exist_ok=True)
-    lock = open(os.path.join(SCRATCH_ROOT, variant + ".lock"), "w")
-    fcntl.flock(lock, fcntl.LOCK_EX)
+    lock, fresh = _lock_for(variant)
     root = os.path.join(SCRATCH_ROOT, variant)
     src = os.path.join(root, "memchr", "src")
+    if fresh:
+        fcntl.flock(lock, fcntl.LOCK_SH)
+        return {"dir": root, "target_dir": os.path.join(HARNESS, "target-arch", variant), "expect": v["expect"], "rewrites": json.load(open(os.path.join(root, ".rewrites"))), "_lock": lock}
     # Re-create the copy only where the source changed, preserving mtimes so
     # that cargo rebuilds exactly when /repo/src changed.
     want = {}
@@ -163,6 +205,8 @@ def prepare(variant):
     lockfile = os.path.join(root, "Cargo.lock")
     if not os.path.exists(lockfile):
         shutil.copy(os.path.join(HARNESS, "Cargo.lock"), lockfile)
+    json.dump(counts, open(os.path.join(root, ".rewrites"), "w"))
+    open(os.path.join(root, ".stamp"), "w").write(_stamp())
     # keep a SHARED lock while the copy is in use: other checks may use it
     # concurrently, and only the last user removes it
     fcntl.flock(lock, fcntl.LOCK_SH)
@@ -184,17 +228,93 @@ LOOM_RULES = [
 LOOM_STATIC = re.compile(r'^(\s*)(pub(?:\([a-z]+\))? )?static (\w+): ([^=]+?) = ([^;]*);\s*$')
 
 
+def _flatten_use_trees(text):
+    """Rewrites `use core::{a, b::{c, d}};` / `use std::{...};` statements
+    (possibly spanning lines) into one `use` statement per path, so that the
+    path-based loom rules below see `core::sync::atomic::X` however the
+    import was grouped."""
+    out, i = [], 0
+    pat = re.compile(r'^([ \t]*)((?:pub(?:\([^)]*\))?[ \t]+)?)use[ \t]+((?:core|std)::\{)', re.M)
+    while True:
+        m = pat.search(text, i)
+        if not m:
+            out.append(text[i:])
+            break
+        end = text.find(";", m.end())
+        stmt = text[m.start(3):end]
+        if end < 0 or not re.search(r'\b(sync|hint|thread|cell)\b', stmt):
+            out.append(text[i:m.end()])
+            i = m.end()
+            continue
+        stmt = re.sub(r'//[^\n]*', '', stmt)
+
+        def parse(src, pos, prefix):
+            """parses a comma separated list up to the closing brace"""
+            paths, cur = [], ""
+            while pos < len(src):
+                c = src[pos]
+                if c == "{":
+                    sub, pos = parse(src, pos + 1, prefix + cur.strip())
+                    paths += sub
+                    cur = ""
+                    continue
+                if c == "}":
+                    if cur.strip():
+                        paths.append(prefix + cur.strip())
+                    return paths, pos + 1
+                if c == ",":
+                    if cur.strip():
+                        paths.append(prefix + cur.strip())
+                    cur = ""
+                else:
+                    cur += c
+                pos += 1
+            if cur.strip():
+                paths.append(prefix + cur.strip())
+            return paths, pos
+
+        root, rest = stmt.split("::{", 1)
+        paths, _ = parse(rest, 0, root + "::")
+        lines = []
+        for pth in paths:
+            pth = re.sub(r'\s+', ' ', pth)
+            pth = re.sub(r'::self$', '', pth)
+            lines.append("%s%suse %s;" % (m.group(1), m.group(2), pth))
+        out.append(text[i:m.start()])
+        out.append("\n".join(lines))
+        i = end + 1
+    return "".join(out)
+
+
+def _join_multiline_statics(text):
+    """Puts `static NAME: T = { ... };` initialisers that span lines on one
+    line (comments dropped) so that the static rule below applies, and turns
+    the const-array idiom `{ const Z: T = E; [Z; N] }` - which needs a const
+    constructor - into `core::array::from_fn(|_| E)`."""
+    pat = re.compile(r'^([ \t]*)((?:pub(?:\([a-z]+\))? )?)static (\w+): ([^\n]+?) = \{[ \t]*\n(.*?)\n\1\};[ \t]*$', re.M | re.S)
+
+    def repl(m):
+        body = re.sub(r'//[^\n]*', '', m.group(5))
+        body = re.sub(r'\s+', ' ', body).strip()
+        return "%s%sstatic %s: %s = { %s };" % (m.group(1), m.group(2), m.group(3), m.group(4), body)
+
+    text = pat.sub(repl, text)
+    text = re.sub(r'= \{ const (\w+): ([^=;]+?) = ([^;]+); \[\1; ([^\]]+)\] \};', r'= core::array::from_fn::<\2, { \4 }, _>(|_| \3);', text)
+    return text
+
+
 def prepare_loom():
     """A scratch copy of /repo/src in which every atomic / spin / std::sync
     primitive resolves to its loom counterpart, so that synchronisation a
     change introduces anywhere in the crate is visible to the model checker
     (hook H4 covers the dispatch cells; this covers everything else)."""
     variant = "kloom"
-    os.makedirs(SCRATCH_ROOT, exist_ok=True)
-    lock = open(os.path.join(SCRATCH_ROOT, variant + ".lock"), "w")
-    fcntl.flock(lock, fcntl.LOCK_EX)
+    lock, fresh = _lock_for(variant)
     root = os.path.join(SCRATCH_ROOT, variant)
     src = os.path.join(root, "memchr", "src")
+    if fresh:
+        fcntl.flock(lock, fcntl.LOCK_SH)
+        return {"dir": root, "target_dir": os.path.join(HARNESS, "target-arch", variant), "expect": "", "rewrites": json.load(open(os.path.join(root, ".rewrites"))), "_lock": lock}
     counts = {"rewritten_lines": 0, "statics": 0}
     want = {}
     for dp, _, fs in os.walk("/repo/src"):
@@ -213,7 +333,13 @@ def prepare_loom():
         out = []
         prev = ""
         in_tls = False
-        for line in open(p).read().split("\n"):
+        source = open(p).read()
+        if rel != "verif.rs":
+            flat = _join_multiline_statics(_flatten_use_trees(source))
+            if flat != source:
+                counts["use_trees_or_statics_normalised"] = counts.get("use_trees_or_statics_normalised", 0) + 1
+            source = flat
+        for line in source.split("\n"):
             new = line
             hook = "VERIF_DETECT_RUNS" in line or ("VERIF_DETECT_RUNS" in prev and prev.rstrip().endswith("="))
             prev = line
@@ -258,6 +384,8 @@ def prepare_loom():
     lockfile = os.path.join(root, "Cargo.lock")
     if not os.path.exists(lockfile):
         shutil.copy(os.path.join(HARNESS, "Cargo.lock"), lockfile)
+    json.dump(counts, open(os.path.join(root, ".rewrites"), "w"))
+    open(os.path.join(root, ".stamp"), "w").write(_stamp())
     fcntl.flock(lock, fcntl.LOCK_SH)
     return {"dir": root, "target_dir": os.path.join(HARNESS, "target-arch", variant), "expect": "", "rewrites": counts, "_lock": lock}
 
